@@ -558,5 +558,257 @@ Proof.
   - right; right. reflexivity.
 Qed.
 
+
+(* ---------------- whole nodes *)
+Definition starlike (nd : node) : Prop := n_kind nd = KStar \/ n_kind nd = KPlus.
+
+(* related outcomes of the two [body] calls of a pair of non-terminal nodes a, b *)
+Definition brel (a b : node) (o1 o2 : out) : Prop :=
+  o1 = Abort 0 \/ o2 = Abort 0 \/
+  match o1, o2 with
+  | Ok r1 s1, Ok r2 s2 =>
+    s1 = s2 /\
+    ((r1 = RNone /\ r2 = RNone)
+     \/ (r1 = RList [RNone] /\ r2 = RList [RNone])
+     \/ (r1 = RList [] /\ r2 = RList [] /\ starlike a /\ starlike b)
+     \/ (exists d1 d2, r1 = RList d1 /\ r2 = RList d2 /\ accok d1 /\ accok d2 /\ d1 <> [] /\ d2 <> []))
+  | Fail s1, Fail s2 => eqx s1 s2
+  | Abort _, Abort _ => True
+  | _, _ => False
+  end.
+
+Lemma vrel_any c r1 r2 : vrel true r1 r2 -> vrel c r1 r2.
+Proof. intros (A & B & C & D). repeat split; try assumption. intros _. apply D. reflexivity. Qed.
+
+Lemma fnn_none : fnn RNone.
+Proof. intros _. reflexivity. Qed.
+
+Lemma fnn_of_tt r : tt r -> fnn r.
+Proof. intros [T _] F. congruence. Qed.
+
+Lemma post_optnone nid nd : post nid nd (RList [RNone]) = RNone.
+Proof. unfold post. cbn [head_is_none]. rewrite orb_true_r. simpl. destruct (n_root nd); reflexivity. Qed.
+
+Lemma efree_starlike g d i nd : get_node g i = Some nd -> starlike nd -> efree g d i = true -> n_suppress nd = true.
+Proof.
+  intros G K E. destruct d; simpl in E; rewrite G in E; destruct (n_suppress nd); try reflexivity;
+    destruct K as [K|K]; rewrite K in E; discriminate.
+Qed.
+
+Lemma nonterminal_of g i nd : get_node g i = Some nd -> is_match_kind (n_kind nd) = false -> nonterminal g i = true.
+Proof. intros G M. unfold nonterminal. rewrite G, M. reflexivity. Qed.
+
+Lemma finish i j c a b fa fb psq1 psq2 s :
+  get_node g1 i = Some a -> get_node g2 j = Some b ->
+  is_match_kind (n_kind a) = false -> is_match_kind (n_kind b) = false ->
+  n_suppress a = n_suppress b ->
+  brel a b (body (P1 fa) fa a s) (body (P2 fb) fb b s) ->
+  orel i j c s (P1 (S fa) i psq1 s) (P2 (S fb) j psq2 s).
+Proof.
+  intros G1 G2 M1 M2 Su B.
+  rewrite (parse_nonmatch g1 input orc fa i a psq1 s G1 M1), (parse_nonmatch g2 input orc fb j b psq2 s G2 M2).
+  destruct B as [B|[B|B]]; [rewrite B; left; reflexivity | rewrite B; right; left; reflexivity |].
+  destruct (body (P1 fa) fa a s) as [r1 s1|s1|w1], (body (P2 fb) fb b s) as [r2 s2|s2|w2]; try contradiction.
+  - right; right. destruct B as (E & B). subst s2. split; [reflexivity|].
+    destruct B as [[E1 E2]|[[E1 E2]|[(E1 & E2 & K1 & K2)|(d1 & d2 & E1 & E2 & A1 & A2 & N1 & N2)]]]; subst r1 r2.
+    + rewrite !post_none. split; [apply vrel_none|]. split; intros; apply fnn_none.
+    + rewrite !post_optnone. split; [apply vrel_none|]. split; intros; apply fnn_none.
+    + rewrite !post_nil. rewrite <- Su. destruct (n_suppress a) eqn:Sa.
+      * split; [apply vrel_none|]. split; intros; apply fnn_none.
+      * split; [apply vrel_nil|]. split; intros d Ef.
+        -- rewrite (efree_starlike g1 d i a G1 K1 Ef) in Sa. discriminate.
+        -- rewrite (efree_starlike g2 d j b G2 K2 Ef) in Su. discriminate.
+    + destruct (n_suppress a) eqn:Sa.
+      * rewrite (post_suppress i a _ Sa), (post_suppress j b _ (eq_sym Su)).
+        split; [apply vrel_none|]. split; intros; apply fnn_none.
+      * pose proof (post_list_tt i a d1 Sa A1 N1) as T1.
+        pose proof (post_list_tt j b d2 (eq_sym Su) A2 N2) as T2.
+        split; [apply vrel_tt; assumption|]. split; intros; apply fnn_of_tt; assumption.
+  - right; right. split; [apply eqx_set_pos_l; apply eqx_set_pos_r; exact B|].
+    split; intros _; apply pos_set_pos.
+  - right; right. exact I.
+Qed.
+
+Definition trel (o1 o2 : out) : Prop :=
+  match o1, o2 with
+  | Ok r1 s1, Ok r2 s2 => s1 = s2 /\ ((r1 = RNone /\ r2 = RNone) \/ (tt r1 /\ tt r2))
+  | Fail s1, Fail s2 => s1 = s2
+  | Abort _, Abort _ => True
+  | _, _ => False
+  end.
+
+Lemma tt_T nid p len sup : tt (RTree (T nid p len sup)).
+Proof. split; [reflexivity | discriminate]. Qed.
+
+Lemma term_rel k i j psq1 psq2 s1 :
+  trel (term_parse input orc i k psq1 s1) (term_parse input orc j k psq2 s1).
+Proof.
+  destruct k; simpl; try exact I.
+  - destruct (Nat.eqb (length input) (pos s1)); simpl; [|reflexivity].
+    split; [reflexivity | right; split; apply tt_T].
+  - destruct (match oid with Some o => match orc o (pos s1) with Some _ => true | None => false end
+                           | None => is_prefix s (skipn (pos s1) input) end); simpl; [|reflexivity].
+    split; [reflexivity | right; split; apply tt_T].
+  - destruct (orc oid (pos s1)) as [len|]; simpl; [|reflexivity].
+    destruct (Nat.eqb len 0); simpl.
+    + split; [reflexivity | left; split; reflexivity].
+    + split; [reflexivity | right; split; apply tt_T].
+Qed.
+
+Lemma term_eqb_eq k1 k2 : term_eqb k1 k2 = true -> k1 = k2 /\ is_match_kind k1 = true.
+Proof.
+  destruct k1, k2; simpl; try discriminate; intro H.
+  - split; reflexivity.
+  - apply andb_true_iff in H as [H1 H2]. apply str_eqb_eq in H1. subst.
+    destruct oid, oid0; simpl in H2; try discriminate.
+    + apply Nat.eqb_eq in H2. subst. split; reflexivity.
+    + split; reflexivity.
+  - apply Nat.eqb_eq in H. subst. split; reflexivity.
+Qed.
+
+Lemma step_term i j c a b fa fb psq1 psq2 s :
+  fa + fb <= n -> get_node g1 i = Some a -> get_node g2 j = Some b ->
+  is_match_kind (n_kind a) = true -> n_kind a = n_kind b -> n_suppress a = n_suppress b ->
+  orel i j c s (P1 (S fa) i psq1 s) (P2 (S fb) j psq2 s).
+Proof.
+  intros L G1 G2 M K Su.
+  assert (M2 : is_match_kind (n_kind b) = true) by (rewrite <- K; exact M).
+  rewrite (parse_match g1 input orc fa i a psq1 s G1 M), (parse_match g2 input orc fb j b psq2 s G2 M2).
+  pose proof (match_pre_sim fa fb fa fb s L) as Z.
+  destruct Z as [Z|[Z|Z]]; [rewrite Z; left; reflexivity | rewrite Z; right; left; reflexivity |].
+  destruct (match_pre g1 input (P1 fa) fa s) as [r1 s1|s1|w1], (match_pre g2 input (P2 fb) fb s) as [r2 s2|s2|w2];
+    try contradiction.
+  - subst s2. rewrite <- K. pose proof (term_rel (n_kind a) i j psq1 psq2 s1) as T.
+    destruct (term_parse input orc i (n_kind a) psq1 s1) as [v1 t1|t1|x1],
+             (term_parse input orc j (n_kind a) psq2 s1) as [v2 t2|t2|x2]; try contradiction.
+    + right; right. destruct T as (E & T). subst t2. split; [reflexivity|]. rewrite <- Su.
+      destruct (n_suppress a).
+      * split; [apply vrel_none|]. split; intros; apply fnn_none.
+      * destruct T as [[E1 E2]|[T1 T2]].
+        -- subst. split; [apply vrel_none|]. split; intros; apply fnn_none.
+        -- split; [apply vrel_tt; assumption|]. split; intros; apply fnn_of_tt; assumption.
+    + right; right. simpl in T. subst t2. split; [apply eqx_refl|].
+      unfold nonterminal. rewrite G1, G2, M, M2. split; discriminate.
+    + right; right. exact I.
+  - right; right. exact I.
+Qed.
+
+Lemma accok1 r : tt r -> accok [r].
+Proof. intro T. constructor; [exact T | constructor]. Qed.
+
+Lemma step_struct i j c a b fa fb psq1 psq2 s :
+  fa + fb <= n -> get_node g1 i = Some a -> get_node g2 j = Some b -> struct_ok g1 g2 R a b = true ->
+  orel i j c s (P1 (S fa) i psq1 s) (P2 (S fb) j psq2 s).
+Proof.
+  intros L G1 G2 H. unfold struct_ok in H.
+  apply andb_true_iff in H as [H HK]. apply andb_true_iff in H as [H Su]. apply andb_true_iff in H as [Pa Pb].
+  apply eqb_prop in Su.
+  destruct (n_kind a) eqn:Ka; destruct (n_kind b) eqn:Kb; try discriminate HK.
+  - (* KSeq *)
+    apply (finish i j c a b fa fb psq1 psq2 s G1 G2); try (rewrite ?Ka, ?Kb; reflexivity); try assumption.
+    rewrite (body_seq _ _ _ _ Ka Pa), (body_seq _ _ _ _ Kb Pb).
+    pose proof (seq_align_sim _ _ _ fa fb L HK true true [] [] s) as Z.
+    destruct Z as [Z|[Z|Z]]; [rewrite Z; left; reflexivity | rewrite Z; right; left; reflexivity |].
+    destruct (seq_loop (P1 fa) true (n_kids a) [] s) as [r1 s1|s1|w1],
+             (seq_loop (P2 fb) true (n_kids b) [] s) as [r2 s2|s2|w2]; try contradiction.
+    + destruct Z as (E & d1 & d2 & E1 & E2 & D). cbn [app] in E1, E2. subst s2 r1 r2.
+      destruct D as (D1 & D2 & D3). right; right.
+      destruct d1 as [|v1 d1], d2 as [|v2 d2].
+      * split; [reflexivity | left; split; reflexivity].
+      * exfalso. assert (X : v2 :: d2 = []) by (apply D3; reflexivity). discriminate.
+      * exfalso. assert (X : v1 :: d1 = []) by (apply D3; reflexivity). discriminate.
+      * split; [reflexivity|]. right; right; right. exists (v1 :: d1), (v2 :: d2).
+        repeat split; try assumption; discriminate.
+    + right; right. apply eqx_set_pos_l. apply eqx_set_pos_r. exact Z.
+    + right; right. exact I.
+  - (* KChoice *)
+    apply andb_true_iff in HK as [HK C2]. apply andb_true_iff in HK as [HK C1].
+    apply (finish i j c a b fa fb psq1 psq2 s G1 G2); try (rewrite ?Ka, ?Kb; reflexivity); try assumption.
+    rewrite (body_choice _ _ _ _ Ka Pa), (body_choice _ _ _ _ Kb Pb).
+    pose proof (choice_sim _ _ HK C1 C2 fa fb L (pos s) s) as Z.
+    destruct Z as [Z|[Z|Z]]; [rewrite Z; left; reflexivity | rewrite Z; right; left; reflexivity |].
+    destruct (choice_loop (P1 fa) (pos s) (n_kids a) s) as [r1 s1|s1|w1],
+             (choice_loop (P2 fb) (pos s) (n_kids b) s) as [r2 s2|s2|w2]; try contradiction.
+    + destruct Z as (E & [[E1 E2]|[T1 T2]]); subst s2.
+      * subst r1 r2. cbn [is_none]. right; right. apply eqx_refl.
+      * rewrite (tt_not_none _ (proj1 T1)), (tt_not_none _ (proj1 T2)). right; right.
+        split; [reflexivity|]. right; right; right. exists [r1], [r2].
+        repeat split; try (apply accok1; assumption); discriminate.
+    + right; right. exact I.
+  - (* KOpt *)
+    destruct (n_kids a) as [|x [|? ?]] eqn:Kia; try discriminate HK.
+    destruct (n_kids b) as [|y [|? ?]] eqn:Kib; try discriminate HK.
+    apply andb_true_iff in HK as [HK C2]. apply andb_true_iff in HK as [HK C1].
+    unfold cho_ok in C1, C2. rewrite Kia in C1. rewrite Kib in C2. cbn [forallb] in C1, C2.
+    rewrite andb_true_r in C1, C2.
+    apply (finish i j c a b fa fb psq1 psq2 s G1 G2); try (rewrite ?Ka, ?Kb; reflexivity); try assumption.
+    unfold body. rewrite Ka, Kb, Kia, Kib.
+    pose proof (kid_strong fa fb x y L HK false false s) as O.
+    destruct O as [O|[O|O]]; [rewrite O; left; reflexivity | rewrite O; right; left; reflexivity |].
+    destruct (P1 fa x false s) as [r1 s1|s1|w1], (P2 fb y false s) as [r2 s2|s2|w2]; try contradiction.
+    + destruct O as (E & V & N1 & N2). subst s2. destruct V as (Gd1 & Gd2 & T & Nn). specialize (Nn eq_refl).
+      right; right. split; [reflexivity|]. destruct (is_none r1) eqn:I1.
+      * right; left. destruct r1; try discriminate. destruct r2; try discriminate. split; reflexivity.
+      * right; right; right. exists [r1], [r2].
+        assert (T1 : tt r1) by (apply fnn_tt; [apply (N1 EDEPTH C1) | assumption | assumption]).
+        assert (T2 : tt r2) by (apply fnn_tt; [apply (N2 EDEPTH C2) | assumption | congruence]).
+        repeat split; try (apply accok1; assumption); discriminate.
+    + destruct O as (E & _). rewrite (eqx_set_pos (pos s) _ _ E). right; right.
+      split; [reflexivity | left; split; reflexivity].
+    + right; right. exact I.
+  - (* KStar *)
+    destruct (n_kids a) as [|x [|? ?]] eqn:Kia; try discriminate HK.
+    destruct (n_kids b) as [|y [|? ?]] eqn:Kib; try discriminate HK.
+    apply andb_true_iff in HK as [HK HS].
+    apply (finish i j c a b fa fb psq1 psq2 s G1 G2); try (rewrite ?Ka, ?Kb; reflexivity); try assumption.
+    rewrite (body_rep (P1 fa) fa a x s (or_introl Ka) Pa Kia), (body_rep (P2 fb) fb b y s (or_introl Kb) Pb Kib).
+    rewrite Ka, Kb.
+    assert (SR : sep_rel (n_sep a) (n_sep b)).
+    { unfold sep_ok in HS. unfold sep_rel. destruct (n_sep a), (n_sep b); try discriminate; auto. }
+    pose proof (rep_sim x y (n_sep a) (n_sep b) false fa fb L HK SR fa fb true [] [] s) as Z.
+    destruct Z as [Z|[Z|Z]]; [rewrite Z; left; reflexivity | rewrite Z; right; left; reflexivity |].
+    destruct (rep_loop (P1 fa) x (n_sep a) false fa true [] s) as [r1 s1|s1|w1],
+             (rep_loop (P2 fb) y (n_sep b) false fb true [] s) as [r2 s2|s2|w2]; try contradiction.
+    + destruct Z as (E & d1 & d2 & E1 & E2 & D). cbn [app] in E1, E2. subst s2 r1 r2.
+      destruct D as (D1 & D2 & D3). right; right. split; [reflexivity|].
+      destruct d1 as [|v1 d1], d2 as [|v2 d2].
+      * right; right; left. repeat split; left; assumption.
+      * exfalso. assert (X : v2 :: d2 = []) by (apply D3; reflexivity). discriminate.
+      * exfalso. assert (X : v1 :: d1 = []) by (apply D3; reflexivity). discriminate.
+      * right; right; right. exists (v1 :: d1), (v2 :: d2). repeat split; try assumption; discriminate.
+    + right; right. exact Z.
+    + right; right. exact I.
+  - (* KPlus *)
+    destruct (n_kids a) as [|x [|? ?]] eqn:Kia; try discriminate HK.
+    destruct (n_kids b) as [|y [|? ?]] eqn:Kib; try discriminate HK.
+    apply andb_true_iff in HK as [HK HS].
+    apply (finish i j c a b fa fb psq1 psq2 s G1 G2); try (rewrite ?Ka, ?Kb; reflexivity); try assumption.
+    rewrite (body_rep (P1 fa) fa a x s (or_intror Ka) Pa Kia), (body_rep (P2 fb) fb b y s (or_intror Kb) Pb Kib).
+    rewrite Ka, Kb.
+    assert (SR : sep_rel (n_sep a) (n_sep b)).
+    { unfold sep_ok in HS. unfold sep_rel. destruct (n_sep a), (n_sep b); try discriminate; auto. }
+    pose proof (rep_sim x y (n_sep a) (n_sep b) true fa fb L HK SR fa fb true [] [] s) as Z.
+    destruct Z as [Z|[Z|Z]]; [rewrite Z; left; reflexivity | rewrite Z; right; left; reflexivity |].
+    destruct (rep_loop (P1 fa) x (n_sep a) true fa true [] s) as [r1 s1|s1|w1],
+             (rep_loop (P2 fb) y (n_sep b) true fb true [] s) as [r2 s2|s2|w2]; try contradiction.
+    + destruct Z as (E & d1 & d2 & E1 & E2 & D). cbn [app] in E1, E2. subst s2 r1 r2.
+      destruct D as (D1 & D2 & D3). right; right. split; [reflexivity|].
+      destruct d1 as [|v1 d1], d2 as [|v2 d2].
+      * right; right; left. repeat split; right; assumption.
+      * exfalso. assert (X : v2 :: d2 = []) by (apply D3; reflexivity). discriminate.
+      * exfalso. assert (X : v1 :: d1 = []) by (apply D3; reflexivity). discriminate.
+      * right; right; right. exists (v1 :: d1), (v2 :: d2). repeat split; try assumption; discriminate.
+    + right; right. exact Z.
+    + right; right. exact I.
+  - (* KEOF *)
+    apply (step_term i j c a b fa fb psq1 psq2 s L G1 G2); try assumption; rewrite ?Ka, ?Kb; reflexivity.
+  - (* KStr *)
+    destruct (term_eqb_eq _ _ HK) as [E _].
+    apply (step_term i j c a b fa fb psq1 psq2 s L G1 G2); try assumption; rewrite ?Ka, ?Kb; try reflexivity; exact E.
+  - (* KRegex *)
+    destruct (term_eqb_eq _ _ HK) as [E _].
+    apply (step_term i j c a b fa fb psq1 psq2 s L G1 G2); try assumption; rewrite ?Ka, ?Kb; try reflexivity; exact E.
+Qed.
+
 End Step.
 End Sound.
